@@ -294,6 +294,7 @@ static sf_count_t mv_write (const void *ptr, sf_count_t c, void *u)
 	if (c <= 0) return 0 ;
 	if (k == VF_SHORT) c = c / 2 ;
 	if (c == 0) return 0 ;
+	if (m->pos + c > ((sf_count_t) 1 << 27)) return 0 ;	/* the "device" holds 128 MiB: a write far beyond that fails like a full disk (the library may seek anywhere under faults) */
 	if (m->pos + c > m->cap)
 	{	sf_count_t nc = (m->pos + c) * 2 + 4096 ; m->d = realloc (m->d, nc) ; memset (m->d + m->cap, 0, nc - m->cap) ; m->cap = nc ; }
 	if (m->pos > m->len) memset (m->d + m->len, 0, m->pos - m->len) ;
